@@ -412,3 +412,185 @@ func GenCaseC15(r *hx.RNG) *Case {
 	}
 	return c
 }
+
+// ---------- C03: all modelled plugins, any program shape ----------
+
+var hostPatterns = []string{"a.test", "A.TEST.", "full:b.test", "b.test.", "c.test", "full:C.Test.", "d.example", "e.test."}
+var redirectPairs = []RedirectRule{
+	{"a.test", "b.test."}, {"b.test", "c.test"}, {"c.test.", "a.test."}, {"full:A.test", "d.example."},
+	{"d.example", "e.test."}, {"e.test", "e.test."}, {"b.test", "a.test"}, {"a.test.", "c.test."},
+}
+
+func GenHosts(r *hx.RNG) XDesc {
+	d := XDesc{Kind: "hosts"}
+	n := r.Range(1, 3)
+	used := map[string]bool{}
+	for i := 0; i < n; i++ {
+		p := hx.Pick(r, hostPatterns)
+		key := strings.ToLower(strings.TrimSuffix(strings.TrimPrefix(p, "full:"), "."))
+		if used[key] {
+			continue
+		}
+		used[key] = true
+		e := HostEntry{Pattern: p}
+		for j := r.Range(0, 2); j > 0; j-- {
+			e.V4 = append(e.V4, 0x0A000100|uint32(r.Intn(8)))
+		}
+		for j := r.Range(0, 1); j > 0; j-- {
+			e.V6 = append(e.V6, uint16(0x100+r.Intn(8)))
+		}
+		d.Hosts = append(d.Hosts, e)
+	}
+	return d
+}
+
+func GenBlackHole(r *hx.RNG) XDesc {
+	d := XDesc{Kind: "black_hole"}
+	for j := r.Range(0, 2); j > 0; j-- {
+		d.V4 = append(d.V4, 0x0A000200|uint32(r.Intn(8)))
+	}
+	for j := r.Range(0, 1); j > 0; j-- {
+		d.V6 = append(d.V6, uint16(0x200+r.Intn(8)))
+	}
+	return d
+}
+
+func GenArbitrary(r *hx.RNG) XDesc {
+	d := XDesc{Kind: "arbitrary"}
+	n := r.Range(1, 4)
+	for i := 0; i < n; i++ {
+		z := ZoneRR{Owner: NameTable[r.Intn(7)], TTL: hx.Pick(r, []uint32{0, 1, 60, 300, 3600})}
+		if r.Chance(2, 3) {
+			z.Type, z.V4 = dns.TypeA, 0x0A000300|uint32(r.Intn(8))
+		} else {
+			z.Type, z.Txt = dns.TypeTXT, strings.Repeat("z", r.Range(1, 9))
+		}
+		d.Zone = append(d.Zone, z)
+	}
+	return d
+}
+
+func GenRedirect(r *hx.RNG) WDesc {
+	d := WDesc{Kind: "redirect"}
+	n := r.Range(1, 3)
+	used := map[string]bool{}
+	for i := 0; i < n; i++ {
+		p := hx.Pick(r, redirectPairs)
+		key := strings.ToLower(strings.TrimSuffix(strings.TrimPrefix(p.Pattern, "full:"), "."))
+		if used[key] {
+			continue
+		}
+		used[key] = true
+		d.Rules = append(d.Rules, p)
+	}
+	return d
+}
+
+func genMatchers(r *hx.RNG) []TMatch {
+	n := []int{0, 0, 0, 0, 1, 1, 1, 2}[r.Intn(8)]
+	ms := make([]TMatch, n)
+	for i := range ms {
+		switch r.Intn(8) {
+		case 0, 1:
+			ms[i] = TMatch{Neg: true, ID: 0} // !has_resp
+		case 2:
+			ms[i] = TMatch{ID: 0}
+		case 3:
+			ms[i] = TMatch{ID: 1, Neg: r.Chance(1, 4)}
+		case 4:
+			ms[i] = TMatch{ID: 28, Neg: r.Chance(1, 4)}
+		case 5:
+			ms[i] = TMatch{ID: 100, Neg: r.Chance(1, 5)}
+		case 6:
+			ms[i] = TMatch{ID: 101, Neg: r.Chance(4, 5)}
+		default:
+			ms[i] = TMatch{ID: 16, Neg: r.Bool()}
+		}
+	}
+	return ms
+}
+
+// GenProgramC03: 1-3 sequences over a pool of plugins of every modelled kind.
+func GenProgramC03(r *hx.RNG) ([]XDesc, []WDesc, []TSeq, int) {
+	nUp := r.Range(1, 2)
+	var xs []XDesc
+	var ws []WDesc
+	nx := r.Range(1, 5)
+	for i := 0; i < nx; i++ {
+		switch r.Intn(9) {
+		case 0, 1:
+			xs = append(xs, XDesc{Kind: "forward", Up: r.Intn(nUp)})
+		case 2, 3:
+			xs = append(xs, GenHosts(r))
+		case 4:
+			xs = append(xs, GenBlackHole(r))
+		case 5:
+			xs = append(xs, GenArbitrary(r))
+		case 6, 7:
+			xs = append(xs, GenTTL(r))
+		default:
+			xs = append(xs, XDesc{Kind: "drop_resp"})
+		}
+	}
+	if r.Chance(3, 4) {
+		xs = append(xs, XDesc{Kind: "forward", Up: r.Intn(nUp)})
+	}
+	nw := r.Range(0, 4)
+	for i := 0; i < nw; i++ {
+		switch r.Intn(7) {
+		case 0, 1, 2:
+			ws = append(ws, WDesc{Kind: "cache"})
+		case 3, 4:
+			ws = append(ws, GenRedirect(r))
+		case 5:
+			ws = append(ws, GenEcs(r))
+		default:
+			ws = append(ws, GenFwdOpt(r))
+		}
+	}
+	nseq := []int{1, 1, 1, 2, 2, 3}[r.Intn(6)]
+	ss := make([]TSeq, nseq)
+	for si := range ss {
+		// names: targets first, the entry last
+		ss[si].Name = nseq - 1 - si
+		nr := r.Range(1, 6)
+		for j := 0; j < nr; j++ {
+			t := TRule{Ms: genMatchers(r)}
+			k := r.Intn(20)
+			switch {
+			case k < 8:
+				t.Kind, t.Arg = "exec", r.Intn(len(xs))
+			case k < 13 && len(ws) > 0:
+				t.Kind, t.Arg = "wrap", r.Intn(len(ws))
+			case k < 14:
+				t.Kind = "accept"
+			case k < 16:
+				t.Kind, t.Arg = "reject", hx.Pick(r, []int{-1, -1, 0, 2, 3, 5, 5, 16})
+			case k < 17:
+				t.Kind = "return"
+			case k < 19 && si > 0:
+				t.Kind, t.Arg = hx.Pick(r, []string{"jump", "jump", "goto"}), ss[r.Intn(si)].Name
+			default:
+				t.Kind, t.Arg = "exec", r.Intn(len(xs))
+			}
+			ss[si].Rules = append(ss[si].Rules, t)
+		}
+	}
+	return xs, ws, ss, nUp
+}
+
+// GenCaseC03 builds one random C03 case.
+func GenCaseC03(r *hx.RNG) *Case {
+	xs, ws, ss, nUp := GenProgramC03(r)
+	c := &Case{Xs: xs, Ws: ws, Prog: ss, Scripts: GenScripts(r, nUp, ScriptOpts{Big: r.Chance(1, 3)})}
+	n := r.Range(3, 6)
+	for i := 0; i < n; i++ {
+		o := QueryOpts{LongNames: true, Malformed: r.Chance(1, 7)}
+		if i > 0 && r.Chance(1, 2) && !o.Malformed {
+			c.Queries = append(c.Queries, Requery(r, c.Queries[r.Intn(i)], o))
+		} else {
+			c.Queries = append(c.Queries, GenQuery(r, o))
+		}
+	}
+	return c
+}
